@@ -249,7 +249,11 @@ def show_forwarders(world):
 
 
 def show_events(evs):
-    return ",".join("%d.%s:%s>%s" % e for e in sorted(evs, key=lambda e: (e[0], e[1], str(e[2]), str(e[3]))))
+    try:
+        evs = sorted(evs)
+    except TypeError:
+        evs = sorted(evs, key=lambda e: (e[0], e[1], str(e[2]), str(e[3])))
+    return ",".join("%d.%s:%s>%s" % e for e in evs)
 
 
 def would_cycle(deleg, o, t):
